@@ -5,6 +5,7 @@ CONSTANTS
   FwKinds = {"ok", "sblk", "rblk"}
   FwConfigs = {"--", "S-", "-R", "SR"}
   Values = {1}
+  NoResult = {FALSE}
   ErrReplies = FALSE
   HostileClasses = {}
   MetaKeys = {}
